@@ -117,7 +117,7 @@ class RunCtx:
         return seeds.rng_for(self.seed, *stream)
 
     # ---- sub-runs --------------------------------------------------------
-    def subrun(self, fn, payload, *, setup=None, wall=280):
+    def subrun(self, fn, payload, *, setup=None, wall=280, ambient=True):
         """Fork; in the child run ``fn(payload, subctx)``; return a dict:
 
         {'status': 'ok', 'value': ...} | {'status': 'exc', 'exc': {...}} |
@@ -143,7 +143,12 @@ class RunCtx:
                 try:
                     if setup is not None:
                         setup(sub)
-                    value = fn(payload, sub)
+                    if ambient:
+                        # threads the code under test starts by itself become tasks of a seeded scheduler (seams/ambient.py)
+                        from ..seams import ambient as _amb
+                        value = _amb.run(sub, lambda: fn(payload, sub))
+                    else:
+                        value = fn(payload, sub)
                     out = {'status': 'ok', 'value': value}
                 except Violation as v:
                     out = {'status': 'violation', 'clause': v.clause, 'key': v.key,
